@@ -34,7 +34,7 @@ class Strt(Opcode):
                         processor.registers.get(self.n), offset, 32)
                     address = processor.registers.get(self.n) if self.post_index else offset_addr
                     if self.t == 15:
-                        data = processor.registers.pc_store_value()
+                        data = processor.registers.get_pc()
                     else:
                         data = processor.registers.get(self.t)
                     if (processor.unaligned_support() or
